@@ -851,7 +851,8 @@ def dense_twin_cases(draw, tier):
         na, nb = nb, na
     fine, coarse = draw(st.sampled_from([('ms', 's'), ('us', 'ms')]))
     op = draw(st.sampled_from(['once', 'historically', 'eventually', 'always']))
-    which = draw(st.sampled_from(['upper', 'lower']))
+    # bare: one twin in the coarse unit, the other with the same numerals and no unit (read in the default unit, the fine one)
+    which = draw(st.sampled_from(['upper', 'lower', 'bare']))
     sig = {}
     for v in vs:
         m = draw(st.integers(2, 6))
@@ -872,6 +873,11 @@ def check_dense_twins(case):
     k2 = (na, nb) if case['which'] == 'upper' else (na * ratio, nb * ratio)
     t2 = '[%d%s:%d%s]' % ((na, fine, nb, fine) if case['which'] == 'upper' else (na, coarse, nb, coarse))
     t1 = '[%d%s:%d%s]' % (na, fine, nb, coarse)
+    if case['which'] == 'bare':
+        k1, t1 = (na * ratio, nb * ratio), '[%d%s:%d%s]' % (na, coarse, nb, coarse)
+        k2, t2 = (na, nb), '[%d:%d]' % (na, nb)
+        if k1 == k2:
+            return DISCARD('twins-coincide', ['mode:dense-twins'])
     f = ('bin', case['join'], ('tun', op, k1[0], k1[1], p), ('tun', op, k2[0], k2[1], p))
     used = F.fvars(f)
     labels = ['mode:dense-twins', 'which:' + case['which']]
@@ -904,6 +910,27 @@ def check_dense_twins(case):
         x, y = step_at(o1[1], t), step_at(o2[1], t)
         if x is None or y is None or not same(x, y, False):
             return FAIL('dense-twins-differ:' + case['which'], desc + '\nlook-alike: %r\nplain:      %r\nat t=%g: %r vs %r' % (o1[1], o2[1], t, x, y), labels)
+    # the same pair through the online monitor (one update; pastified when the operator looks ahead): its operators are
+    # kept under printed names, which must tell the twins apart
+    if not F.has_future(p):
+        from ..monitors import run_ct_on
+        past = op in ('eventually', 'always')
+        n1 = run_ct_on(twin, feed, [sig], unit=fine, pastify=past)
+        n2 = run_ct_on(plain, feed, [sig], unit=fine, pastify=past)
+        if n2[0] == 'ok':
+            if n1[0] != 'ok':
+                return FAIL('dense-twins-online-raises:%s' % n1[1], desc + '\nonline monitor raised %s: %s at %s' % (n1[1], n1[3], n1[4]), labels)
+            c1 = [q_ for out in n1[1] for q_ in out]
+            c2 = [q_ for out in n2[1] for q_ in out]
+            if not check_shape(c1) and not check_shape(c2):
+                if bool(c1) != bool(c2) or (c1 and (c1[0][0], c1[-1][0]) != (c2[0][0], c2[-1][0])):
+                    return FAIL('dense-twins-online-differ:' + case['which'], desc + '\nonline, look-alike: %r\nonline, plain:      %r' % (c1, c2), labels)
+                for t in sorted(set(q_[0] + d for q_ in c1 + c2 for d in (-0.5, 0.0, 0.5))):
+                    if c1 and c1[0][0] <= t <= c1[-1][0]:
+                        x, y = step_at(c1, t), step_at(c2, t)
+                        if x is None or y is None or not same(x, y, False):
+                            return FAIL('dense-twins-online-differ:' + case['which'], desc + '\nonline, look-alike: %r\nonline, plain:      %r\nat t=%g: %r vs %r' % (c1, c2, t, x, y), labels)
+                labels.append('online-compared')
     return PASS(len(pts) > 2, labels)
 
 
